@@ -3,14 +3,14 @@ import hashlib
 import random
 import sys
 
-from lib import Report, proof_gate, tier_seed
+from lib import Report, proof_gate, tier_seed, run_model, ds
 import gen_build as GB
 import dznjson
 from checks import buildcases as BC
 
 TRUSTED = ['Coq 8.16.1 kernel (coqc), vm_compute', 'extraction (ExtrOcamlBasic only) + OCaml 4.13.1 + harness/ml/driver.ml',
            'harness: gen_build.py, workers/build_worker.py + buildlib.py (sets are built by inserting the names in a permuted order)',
-           'hashlib.md5 in the harness process as the reference for "MD5 of the UTF-8 contents"']
+           'the reference for "MD5 of the UTF-8 contents" is the Gallina RFC 1321/UTF-8 model (Base/Md5.v, op 603); hashlib.md5 in the harness only cross-checks that model']
 ASSUME = ['child interpreters with distinct PYTHONHASHSEED values stand for "all hash seeds"; the model has no hash seed at all '
           '(sets are consumed through membership and sorting only - theorem C08_build_permutation_invariant)']
 
@@ -69,9 +69,19 @@ def main(argv):
     runs = []
     model = None
     for k, hs in enumerate(seeds):
-        io, mo = BC.run_builds(cases, hashseed=hs, order_seed=1000 + k)
+        # every other process builds the cases in the opposite order: the output for a case must not depend on what the
+        # process built before ("regardless of ... the process it runs in")
+        if k % 2 == 1:
+            io, mo = BC.run_builds(cases[::-1], hashseed=hs, order_seed=1000 + k)
+            io, mo = io[::-1], mo[::-1]
+        else:
+            io, mo = BC.run_builds(cases, hashseed=hs, order_seed=1000 + k)
         runs.append(io)
         model = mo
+    # content hashes by the Gallina MD5/UTF-8 model (op 603), one evaluation per distinct file contents
+    distinct_contents = sorted({f[1] for r in runs[0] if r[0] == 'ok' for f in r[1]})
+    model_hash = dict(zip(distinct_contents, (ds(h) for h in run_model([[603, x] for x in distinct_contents]))))
+    rep.extra['md5_evaluations_in_model'] = len(distinct_contents)
     nv = 0
     for ci, c in enumerate(cases):
         names = [x for x in (c['cfg']['ports']['r'][0] + c['cfg']['ports']['r'][1]) if isinstance(x, list)]
@@ -82,14 +92,17 @@ def main(argv):
         for k in range(1, len(outs)):
             if outs[k] != outs[0]:
                 d = BC.first_diff(outs[0][1], outs[k][1]) if outs[0][0] == 'ok' and outs[k][0] == 'ok' else f'{outs[0][0]} vs {outs[k][0]}'
-                problem = (f'equal inputs give different output under PYTHONHASHSEED={seeds[0]} and {seeds[k]} '
-                           f'(sets built in different insertion orders): {d}')
+                problem = (f'equal inputs give different output in two processes (PYTHONHASHSEED={seeds[0]} and {seeds[k]}, sets built in '
+                           f'different insertion orders, cases built in {"opposite" if k % 2 else "the same"} order): {d}')
                 break
         if not problem and outs[0][0] == 'ok':
             for f in outs[0][1]:
-                ref = hashlib.md5(f[1].encode('utf-8')).hexdigest()
+                ref = model_hash[f[1]]
                 if f[2] != ref:
                     problem = f'content hash of {f[0]} is {f[2]}, MD5 of its UTF-8 contents is {ref}'
+                    break
+                if ref != hashlib.md5(f[1].encode('utf-8')).hexdigest():
+                    problem, failing = f'correspondence legA:Md5.content_hash broken: the model gives {ref} for {f[0]}, hashlib another value', False
                     break
         if not problem:
             i, m = outs[0], model[ci]
